@@ -1186,6 +1186,24 @@ func (x *Exec) builtin(s *State, in ssa.Instruction, b *ssa.Builtin, c *ssa.Call
 		m := args[0].T
 		x.mapStore(s, mt, m, args[1].T, nil, false)
 		return Val{}, nil
+	case "clear":
+		mt, isMap := c.Args[0].Type().Underlying().(*types.Map)
+		if !isMap {
+			return Val{}, fmt.Errorf("clear of a slice")
+		}
+		// clear(m): no key is present any more, length 0 (a nil map stays nil: the writes land on the
+		// unused slot 0 of the heap arrays, which no non-nil map reads)
+		hk, _, lk := x.mapKeys(mt)
+		ks := x.sortOf(mt.Key())
+		H := x.heapGet(s, hk, SArr(SInt, SArr(ks, SBool)))
+		L := x.heapGet(s, lk, SArr(SInt, SInt))
+		empty := Var(x.eng.fresh("clear$has"), SArr(ks, SBool))
+		kq := Var("k$clear", ks)
+		s.assume(Forall([]*Term{kq}, Not(Select(empty, kq)), []*Term{Select(empty, kq)}))
+		x.heapSet(s, hk, Store(H, args[0].T, empty))
+		x.heapSet(s, lk, Store(L, args[0].T, IntLit(0)))
+		x.noteWrite(s, hk, args[0].T)
+		return Val{}, nil
 	case "print", "println", "close":
 		return Val{}, nil
 	case "recover":
